@@ -574,6 +574,25 @@ func respell(docs []Doc, st *Style) {
 				}
 			}
 		}
+		if docs[i].Kind == "AdminNetworkPolicy" || docs[i].Kind == "BaselineAdminNetworkPolicy" {
+			// portNumber / portRange: protocol defaults to TCP (CRD default) - spelled out or not, per entry
+			spec, _ := o["spec"].(obj)
+			for _, sec := range []string{"ingress", "egress"} {
+				rules, _ := spec[sec].([]interface{})
+				for _, r := range rules {
+					ro, _ := r.(obj)
+					pl, _ := ro["ports"].([]interface{})
+					for _, p := range pl {
+						po, _ := p.(obj)
+						for _, k := range []string{"portNumber", "portRange"} {
+							if e, ok := po[k].(obj); ok && e["protocol"] == "TCP" && st.coin() {
+								delete(e, "protocol")
+							}
+						}
+					}
+				}
+			}
+		}
 		respellSelectors(o["spec"], st)
 		if docs[i].Kind == "NetworkPolicy" {
 			respellCidrs(o["spec"], st)
